@@ -107,7 +107,13 @@ def prune_cache(kind, keep=3):
     base = os.path.join(BUILD, kind)
     if not os.path.isdir(base):
         return
-    ents = sorted((os.path.getmtime(os.path.join(base, e)), e) for e in os.listdir(base))
+    ents = []
+    for e in os.listdir(base):
+        try:
+            ents.append((os.path.getmtime(os.path.join(base, e)), e))
+        except OSError:
+            pass        # another build (parallel variant builds) is just replacing that directory
+    ents.sort()
     for _, e in ents[:-keep]:
         shutil.rmtree(os.path.join(base, e), ignore_errors=True)
 
